@@ -765,14 +765,9 @@ impl CodegenContext {
                                     );
                                     opts.initial_pc = 0.into()
                                 }
-                                Err(_) => {
-                                    // Will be marked as undefined and retried later
-                                    log::trace!(
-                                        "Segment '{}' was not able to evaluate the 'start'",
-                                        name
-                                    );
-                                    opts.initial_pc = 0.into();
-                                }
+                                // (a 'start' that cannot be evaluated yet is `Ok(None)`: it is marked as undefined and
+                                // retried in the next pass; an error - e.g. a string - will never become an address)
+                                Err(e) => return Err(e),
                             }
                             if let Some(write) = extractor.try_get_i64(self, "write")? {
                                 opts.write = write != 0;
